@@ -36,3 +36,6 @@ func (st *StateDB) VerifC16Live() map[common.Address][]common.Hash {
 
 // VerifC16JournalLen is the current length of the account journal.
 func (st *StateDB) VerifC16JournalLen() int { return st.journal.length() }
+
+// VerifC16LogSize is the block-wide log counter AddLog stamps into Log.Index.
+func (st *StateDB) VerifC16LogSize() uint { return st.logSize }
